@@ -6,7 +6,11 @@ PROP = {'rule': 'history: rapid state machine, one weighted "request" action (cr
          'the min-sum and min<=max boundaries (exact fit, +-1), shared-weight annotation (valid/invalid), pods in the stub client (labelled or '
          'namespace-bound); every request goes through the real admission order (fillQuotaDefaultInformation + ValidAddQuota / '
          'ValidUpdateQuota(old stored, new) / ValidDeleteQuota(old stored)), one time in four followed by the informer event of the persisted '
-         'change. All weight decisions are uniform (built from rapid.Bool bits; rapid biases IntRange/SampledFrom/action choice to small '
+         'change. Overlapping-request rule (1 delete in 3, ~4 % of requests, history unit only): while the DELETE under test is inside its pod List '
+         'the stub client starts a second drawn request (create a child under / re-parent another quota under the quota being deleted, or any '
+         'create/update) on another goroutine against the same quotaTopology; if the topology lock is held at that moment the two serialise '
+         '(delete ; nested), if it is free the hook waits for the nested request (nested ; delete); both verdicts are applied to the model in '
+         'that order, the nested goroutine is always joined before the oracle runs. All weight decisions are uniform (built from rapid.Bool bits; rapid biases IntRange/SampledFrom/action choice to small '
          'indices). non-trivial = the history contains an ACCEPTED parent change of a quota that has children; distinct = FNV-64 of the full '
          'history. exhaustive: every request sequence of length <=3 (thorough: <=4, 12 shards partition the first request) over names a,b,c with '
          'parent in {root,a,b,c}, is-parent in {T,F}, min.cpu in {1,2}, max={cpu:2}, namespaces in {none,[n1]}, in two pod environments, '
@@ -22,6 +26,9 @@ PROP = {'rule': 'history: rapid state machine, one weighted "request" action (cr
                  'pod lists come from a stub client.Client with the semantics of the manager cache for the two list shapes the webhook issues '
                  '(field index label.quotaName as registered in pkg/util/fieldindex, and namespace listing)',
                  'single webhook replica: informer events, when delivered, arrive in order right after the accepted request',
+                 'overlapping requests: only the pair (DELETE inside its pod List, one other request) is generated; completion order is decided '
+                 'by probing quotaTopology.lock (TryLock) when the List happens, never by a clock; the timers in the hook are safety nets whose '
+                 'expiry only serialises the two requests (a legal history)',
                  "the child index of the ROOT (quotaHierarchyInfo[root]) may lose entries when the root object itself is admitted after other quotas "
                  '(ValidAddQuota re-makes the entry); no clause of the statement depends on it, so it is counted, not asserted; tree-id agreement '
                  'along edges and the recorded shared-weight / allow-lent values are likewise only counted'],
